@@ -22,10 +22,13 @@ RULE = ('Hypothesis-generated scales (default / atmospheric / four base scales l
         'distinct = hash of the canonical JSON case; non-trivial rules are stated per sub-check.')
 ASSUMPTIONS = [
     'offset units (degC, degF) are excluded: they are not multiplicative by definition',
-    'quantities whose non-dimensional value (or any product/power formed in the case, or the partial products of the '
-    'scaling factor prod(scale**exponent)) leaves 1e-280..1e280 are skipped and counted: float64 overflow is not part '
-    'of the claim',
+    'float64 range: a conservative budget (decades of the magnitude + of every unit factor + of every scale factor, '
+    'since pint accumulates them one by one) must stay below 280; a case beyond it is skipped and counted, a product '
+    'or power beyond it is left out of that case (labels "product/quotient checked", "power checked")',
     'fractional powers and square roots are only taken of positive magnitudes',
+    'jax-array magnitudes are only combined with units whose exact integer conversion factors stay below 2**62 '
+    '(pint multiplies by python ints, jax rejects ints beyond int64: e.g. day**4); otherwise the same case runs with '
+    'a numpy array',
     'whole-second durations are drawn with |seconds| <= 2**40 (DESIGN domain; float64 holds them exactly)',
     'round-down of non-integer durations is asserted for non-negative values whose fractional part lies in '
     '[1e-3, 1-1e-3] and |seconds| <= 1e9 (rounding noise there is < 1e-6); for negative non-integers only '
@@ -142,7 +145,7 @@ def _compatible_terms(draw, terms):
 
 @st.composite
 def _magnitude(draw, allow_zero=True):
-  kind = draw(st.sampled_from(['float', 'float', 'float', 'int', 'npscalar', 'npscalar', 'array', 'array', 'array', 'array2d', 'array2d', 'jax']))
+  kind = draw(st.sampled_from(['float'] * 3 + ['int'] + ['npscalar'] * 2 + ['array'] * 3 + ['array2d'] * 2 + ['jax']))
   spec = {'kind': kind, 'exp10': draw(st.integers(-30, 30)),
           'mant': draw(st.floats(1.0, 9.75, allow_nan=False, width=32)),
           'sign': draw(st.sampled_from([1, 1, -1]))}
@@ -176,10 +179,25 @@ def _mag_value(spec):
 @st.composite
 def _quantity_case(draw):
   t1 = draw(_terms())
+  if draw(st.integers(0, 7)) == 0:   # dedicated branch: a dimensionless ratio of two compatible unit expressions
+    ta = draw(_terms(2))
+    tb = draw(_compatible_terms(ta))
+    t1 = ta + [[name, -num] for name, num in tb]
   t2 = draw(_terms(3))
   return {'scale': draw(_scale_spec()), 't1': t1, 'to': draw(_compatible_terms(t1)), 'm1': draw(_magnitude()),
           't2': t2, 'm2': draw(_magnitude(allow_zero=False)),
           'power': draw(st.sampled_from([2, 3, -1, -2, 0.5, 1.5, -0.5]))}
+
+
+def _int_factor_bound(terms):
+  """Upper bound of the integers pint may form when converting a product of terms to other units."""
+  num = den = 1
+  for name, n in terms:
+    f = ref.UNITS[name][0]
+    e = (abs(int(n)) + 1) // 2
+    num *= max(f.numerator, 1) ** e
+    den *= max(f.denominator, 1) ** e
+  return max(num, den)
 
 
 def _unit(u, terms):
@@ -251,17 +269,28 @@ def run_quantity(case):
   except ValueError:   # incompatible array shapes: the second quantity becomes its first element
     m2 = float(np.asarray(m2).ravel()[0])
     want2 = float(np.asarray(want2).ravel()[0])
-  with np.errstate(all='ignore'):
-    chk = [want1, want2, np.asarray(want1) * want2, np.asarray(want1) / want2, ref.convert_ref(np.asarray(m1, float), t1, to)]
-    if pos:
-      chk += [want1p ** p, m1p ** p]
-  # the scaling factor itself is accumulated dimension by dimension: its partial products must stay finite too
-  d2 = ref.dims_of(t2)
-  dim_sets = [d1, d2, [a + b for a, b in zip(d1, d2)], [a - b for a, b in zip(d1, d2)], [a * F(p).limit_denominator(2) for a in d1]]
-  worst = max(sum(abs(float(d)) * abs(math.log10(v)) for d, v in zip(ds, si)) for ds in dim_sets)
-  if not _in_range(*chk) or worst > 280.0:
+  # float64 range: scaling factors and unit-conversion factors are accumulated factor by factor, so their partial
+  # products (not only the final values) must stay finite. Budgets in decades, conservative (sums of absolute logs).
+  def unit_decades(terms):
+    return sum(abs(n / 2.0 * math.log10(float(ref.UNITS[name][0]))) for name, n in terms)
+
+  def scale_decades(terms):
+    return sum(abs(float(d)) * abs(math.log10(v)) for d, v in zip(ref.dims_of(terms), si))
+
+  lm1, lm2 = max(map(abs, _log10abs(m1))), max(map(abs, _log10abs(m2)))
+  u1d, u2d, utod, s1d, s2d = unit_decades(t1), unit_decades(t2), unit_decades(to), scale_decades(t1), scale_decades(t2)
+  limit = 280.0
+  if lm1 + u1d + s1d + utod > limit or lm2 + u2d + s2d > limit:
     return Outcome(skipped=True)
+  do_product = lm1 + lm2 + u1d + u2d + s1d + s2d <= limit
+  do_power = pos and abs(p) * (lm1 + u1d + max(s1d, utod)) <= limit
+  out.labels = list(out.labels) + [lab for lab, on in (('product/quotient checked', do_product), ('power checked', do_power)) if on]
   is_jax = case['m1']['kind'] == 'jax'
+  if is_jax and max(_int_factor_bound(t1), _int_factor_bound(to)) > 2 ** 62:
+    # pint keeps integer conversion factors exact (e.g. day**4 = 86400**4 > 2**63); jax cannot multiply an array by
+    # a python int beyond int64. That is a pint/jax interoperability limit, not part of the claim: use numpy.
+    is_jax = False
+    out.labels = list(out.labels) + ['jax demoted to numpy (integer factor > 2^62)']
   if is_jax:
     import jax.numpy as jnp
     m1q = jnp.asarray(m1)
@@ -306,15 +335,16 @@ def run_quantity(case):
   a2 = np.asarray(nd2, dtype=np.float64)
   a2s, q2s = a2, q2
   q1n = np.asarray(m1, dtype=np.float64) * u1    # numpy container for mixed products
-  prod = scale.nondimensionalize(q1n * q2s)
-  if _rel(prod, a1 * a2s) > RTOL:
-    return bad('nondimensionalize(q1*q2) != nondimensionalize(q1)*nondimensionalize(q2)', prod, a1 * a2s,
-               units=[str(u1), str(u2)])
-  quot = scale.nondimensionalize(q1n / q2s)
-  if _rel(quot, a1 / a2s) > RTOL:
-    return bad('nondimensionalize(q1/q2) != nondimensionalize(q1)/nondimensionalize(q2)', quot, a1 / a2s,
-               units=[str(u1), str(u2)])
-  if pos:
+  if do_product:
+    prod = scale.nondimensionalize(q1n * q2s)
+    if _rel(prod, a1 * a2s) > RTOL:
+      return bad('nondimensionalize(q1*q2) != nondimensionalize(q1)*nondimensionalize(q2)', prod, a1 * a2s,
+                 units=[str(u1), str(u2)])
+    quot = scale.nondimensionalize(q1n / q2s)
+    if _rel(quot, a1 / a2s) > RTOL:
+      return bad('nondimensionalize(q1/q2) != nondimensionalize(q1)/nondimensionalize(q2)', quot, a1 / a2s,
+                 units=[str(u1), str(u2)])
+  if do_power:
     qp = (m1p * u1) ** p
     pw = scale.nondimensionalize(qp)
     wantp = np.asarray(want1p) ** p
@@ -508,7 +538,7 @@ def _datetime_case(draw, tier):
   ref_min = draw(st.one_of(st.integers(_MIN_1900, _MIN_2100),
                            st.sampled_from([ref.days_from_civil(1979, 1, 1) * 1440, 0,
                                             ref.days_from_civil(2000, 2, 29) * 1440 + 61])))
-  span = draw(st.sampled_from(['full', 'full', 'year', 'day']))
+  span = draw(st.sampled_from(['full', 'full', 'year', 'year', 'day']))
   singles = draw(st.lists(st.integers(_MIN_1900, _MIN_2100), max_size=5))
   step = draw(st.sampled_from([1, 60, 600, 3600, 6 * 3600, 86400, 7, 5400])) * draw(st.sampled_from([1, 1, -1]))
   return {'scale': draw(_scale_spec()), 'ref_min': ref_min, 'span': span, 'seed': draw(st.integers(0, 2 ** 20)),
@@ -775,17 +805,17 @@ SUBCHECKS = [
              rule='non-trivial = scale defines some but not all of the four base dimensions',
              doc='ValueError iff a dimension with non-zero net exponent has no scale; invalid Scale() arguments raise'),
     Subcheck('timedelta_roundtrip', run_timedelta, strategy=_timedelta_case,
-             examples={'quick': 60, 'thorough': 600}, shards={'quick': 2, 'thorough': 12},
+             examples={'quick': 100, 'thorough': 600}, shards={'quick': 2, 'thorough': 12},
              wall={'quick': 300.0, 'thorough': 1500.0},
              rule='non-trivial = bulk range reaches at least 2**10 seconds',
              doc='whole seconds survive nondimensionalize/dimensionalize_timedelta64 (array and scalar), round-down kept'),
     Subcheck('datetime_roundtrip', run_datetime, strategy=_datetime_case,
-             examples={'quick': 40, 'thorough': 400}, shards={'quick': 2, 'thorough': 12},
+             examples={'quick': 60, 'thorough': 400}, shards={'quick': 2, 'thorough': 12},
              wall={'quick': 300.0, 'thorough': 1500.0},
              rule='non-trivial = stamps spread over at least a year around the reference date',
              doc='datetime64 <-> nondim time exact at minute resolution; datetime_to_time; time-axis delta'),
     Subcheck('orbital_phase', run_orbital, strategy=_orbital_case,
-             examples={'quick': 40, 'thorough': 400}, shards={'quick': 2, 'thorough': 12},
+             examples={'quick': 80, 'thorough': 400}, shards={'quick': 2, 'thorough': 12},
              wall={'quick': 300.0, 'thorough': 1500.0},
              rule='non-trivial = model times span at least 30 days around the reference date',
              doc='phases in [0, 2pi), congruent to ref + rate*t mod 2pi (long double bulk, Fraction sample), float32/64'),
